@@ -790,8 +790,9 @@ static int child_main(const Cfg& c0, long inst, uint64_t seed, int reps, int siz
   std::vector<int> Ts = { 2, rng.coin() ? 16 : 8, rng.coin() ? 3 : 4 };
   if (size) { Ts = pool; }
   else if (rng.range(0, 2) == 0) Ts.push_back(40);
-  for (int T : Ts)
-    for (int r = 0; r < reps; ++r) {
+  for (size_t ti = 0; ti < Ts.size(); ++ti)
+    for (int r = 0; r < ((size || ti < 2) ? reps : 1); ++r) {     // (quick tier: repetitions for the first two counts only)
+      const int T = Ts[ti];
       c.T0 = T; c.hist = { T }; c.hist_modes = { (r == 0) ? 2 : (int)(rng.next() % 5) };
       one_run(c, inst, r, seed, false);
     }
@@ -801,7 +802,7 @@ static int child_main(const Cfg& c0, long inst, uint64_t seed, int reps, int siz
   for (int k = 0; k < nhist; ++k) {
     std::vector<int> seqs = { 8, 2, 16, 1, 3, 4, 40 };
     for (int i = (int)seqs.size() - 1; i > 0; --i) std::swap(seqs[i], seqs[rng.range(0, i)]);
-    seqs.resize(size ? 5 : 2);
+    seqs.resize(size ? 5 : 1);
     // make sure the history contains: more threads than at set_up, then fewer than before, then more again
     const int hi = rng.coin() ? 8 : 16, lo = rng.coin() ? 2 : 1;
     c.T0 = k % 2 == 0 ? rng.pick(std::vector<int>{ 2, 3, 4 }) : hi;
